@@ -586,7 +586,8 @@ type TSeg struct {
 type TLine struct {
 	Tmpl string
 	Segs []TSeg
-	Ctx  []parse.Node // enclosing if / range / with nodes, outermost first
+	Ctx  []parse.Node      // enclosing if / range / with nodes, outermost first
+	vars map[string]string // variables of the template whose definitions ($v := pipe) are all the same pipeline
 }
 
 // String renders the line with actions in {{…}} form.
@@ -594,10 +595,58 @@ func (l TLine) String() string {
 	var sb strings.Builder
 	for _, s := range l.Segs {
 		if s.Action != nil {
-			sb.WriteString("{{" + actionString(s.Action) + "}}")
+			sb.WriteString("{{" + l.canonAction(actionString(s.Action)) + "}}")
 		} else {
 			sb.WriteString(s.Text)
 		}
+	}
+	return sb.String()
+}
+
+// canonAction spells an action independently of two naming choices: the element variable of an enclosing
+// {{range $c := …}} is the dot (when nothing in between rebinds the dot), and an action that is nothing but a variable
+// defined once in the template ({{$name}}) is that variable's pipeline.
+func (l TLine) canonAction(a string) string {
+	for i, c := range l.Ctx {
+		r, ok := c.(*parse.RangeNode)
+		if !ok || len(r.Pipe.Decl) == 0 {
+			continue
+		}
+		rebound := false
+		for _, inner := range l.Ctx[i+1:] {
+			switch inner.(type) {
+			case *parse.RangeNode, *parse.WithNode:
+				rebound = true
+			}
+		}
+		if rebound {
+			continue
+		}
+		elem := r.Pipe.Decl[len(r.Pipe.Decl)-1].Ident[0]
+		a = replaceVar(a, elem, ".")
+	}
+	if strings.HasPrefix(a, "$") && !strings.ContainsAny(a, " .|(") {
+		if def, ok := l.vars[a]; ok {
+			return def
+		}
+	}
+	return a
+}
+
+// replaceVar replaces the variable (a whole word, not followed by a field selector) by repl.
+func replaceVar(s, name, repl string) string {
+	var sb strings.Builder
+	for i := 0; i < len(s); {
+		if strings.HasPrefix(s[i:], name) {
+			j := i + len(name)
+			if j == len(s) || !(s[j] == '_' || s[j] == '.' || s[j] >= '0' && s[j] <= '9' || s[j] >= 'a' && s[j] <= 'z' || s[j] >= 'A' && s[j] <= 'Z') {
+				sb.WriteString(repl)
+				i = j
+				continue
+			}
+		}
+		sb.WriteByte(s[i])
+		i++
 	}
 	return sb.String()
 }
@@ -685,9 +734,22 @@ func (ts *TemplateSet) Lines(name string) []TLine {
 	}
 	walk(t.Root, nil)
 	flush()
+	vars := map[string]string{}
+	for v, defs := range ts.VarDefs(name) {
+		same := len(defs) > 0
+		for _, d := range defs {
+			if d != defs[0] {
+				same = false
+			}
+		}
+		if same {
+			vars[v] = defs[0] // every definition is the same pipeline
+		}
+	}
 	// drop empty lines
 	var out []TLine
 	for _, l := range lines {
+		l.vars = vars
 		if strings.TrimSpace(l.String()) != "" {
 			out = append(out, l)
 		}
